@@ -50,6 +50,7 @@ Definition in_scope (c : case) : bool :=
   match c with
   | CIntake _ own t _ _ => typed_inside t || owner_immutable own
   | CField _ imm t _ => typed_inside t || imm
+  | CSop (SVersionedDeser b) _ => b     (* an untyped field of a mutable Versioned class is outside the claim *)
   | CSop _ _ => true
   end.
 
